@@ -173,6 +173,9 @@ structure DLTable where
   /-- reads of the table's data members: (reader, member) — `<ctor>:x` for `this->x = functions->x`,
       `get_name` for `functions->name`, inline getters `get_X() { return functions->X; }` -/
   dataReads : List (String × String)
+  /-- members defined in dl-problem.cpp whose body does not use the plug-in's function table at all
+      (implemented by the class itself, e.g. `DLControlProblem::eval_proj_diff_g`) -/
+  own : List String
   deriving Repr, Inhabited
 
 /-! ### Predicates decided over the tables -/
